@@ -146,10 +146,16 @@ def actEntry? : Sexp → Option (Bool × List Nat)
   | .list [i, c] => do pure ((← i.nat?) != 0, ← c.bytes?)
   | _ => none
 
+/-- the terminal is a byte stream: a printed line whose text contains a line feed (a TEXT value from a JSON escape)
+cannot be told from two printed lines, so the answer is cut at every line feed, as the harness cuts the captured stdout -/
+def cutAtNl (cur : List Nat) : List Nat → List (List Nat)
+  | [] => [cur.reverse]
+  | b :: bs => if b = 10 then cur.reverse :: cutAtNl [] bs else cutAtNl (b :: cur) bs
+
 def showItems (ws : List TermItem) : String :=
-  ",".intercalate (ws.map (fun w => match w with
-    | .clear => "C"
-    | .line bs => Sexp.showBytes bs))
+  ",".intercalate (ws.flatMap (fun w => match w with
+    | .clear => ["C"]
+    | .line bs => (cutAtNl [] bs).map Sexp.showBytes))
 
 def showFollowAnswer : FollowAnswer → String
   | .rejected .definitions p => "rejected defs " ++ showParsed p
